@@ -112,6 +112,9 @@ def run(chk):
     shared.header_line_split(chk, prog, "R1.header_split", "humphrey::http::response::Response::from_stream")
     # "the upstream receives the request unchanged": same-named header fields keep their order in the relayed request
     shared.header_order(chk, prog, "R1.header_order")
+    # a chunked upstream body is decoded whichever case the upstream writes its chunk sizes in
+    from . import c07 as _c07
+    _c07.chunk_size_hex(chk, prog)
     shared.eof_is_error(chk, prog, "R1.eof_is_error", r"^humphrey::http::response::Response::from_stream$", "upstream response head")
     # ---- R2 bounded wait
     conn = [blk for blk, t in bi.calls_to(r"TcpStream::connect_timeout$")]
